@@ -49,6 +49,7 @@ void glue_rx(glue_node *n, void *buf, size_t len);
 void glue_esp32_rx(glue_node *n, const void *exact_copy, size_t len);
 void glue_tick(glue_node *n);
 void glue_view_get(glue_node *n, glue_view *v);
+void glue_set_mac(glue_node *n, const uint8_t mac[6]); /* the daemon re-read the interface's hardware address */
 
 /* Direct API surface for the walk drivers (C12b, C13, C14, C15, C16). */
 void glue_api_mapping_switch(glue_node *n, int input);
